@@ -29,7 +29,11 @@ import (
 func versions() []int32 {
 	set := map[int32]bool{}
 	re := regexp.MustCompile(`Ver\s*(?:>=|<=|>|<|==|!=)\s*([0-9]+)`)
-	files, _ := filepath.Glob("/repo/lang/pack/udp/*.go")
+	repo := os.Getenv("VERIF_REPO") // set by bin/mutants in scratch mode only
+	if repo == "" {
+		repo = "/repo"
+	}
+	files, _ := filepath.Glob(repo + "/lang/pack/udp/*.go")
 	for _, f := range files {
 		b, err := os.ReadFile(f)
 		if err != nil {
